@@ -233,4 +233,52 @@ theorem raiseImplicit_volume (o : Obj K) (tol : K) (hw : C06.WF o 3) (au av aw :
         (Tensor.applyAxis (matOfE Eu (o.basis 0).numFunctions bu'.numFunctions) o.cps 0) 1) 2).entry4 _ _ _ _ _ _ _ = _
     rw [hb22, hb11]
 
+/-- `reinterpolate` of a volume net with the projection property of each direction given directly
+    (used by `lower_order`). -/
+theorem reinterpolate_pardim3_proj (o : Obj K) (tol : K) (bu bv bw bu' bv' bw' : Basis K) (pu pv pw : Array K)
+    (A B D C : ℕ) (Niu Niv Niw : Mat K) (hb : o.bases = #[bu, bv, bw]) (hs : o.cps.shape = [A, B, D, C])
+    (hgu : bu'.greville = .ok pu) (hgv : bv'.greville = .ok pv) (hgw : bw'.greville = .ok pw)
+    (Hu : Mat.invChecked (Obj.basisMat bu' tol pu.toList 0 true) = .ok Niu)
+    (Hv : Mat.invChecked (Obj.basisMat bv' tol pv.toList 0 true) = .ok Niv)
+    (Hw : Mat.invChecked (Obj.basisMat bw' tol pw.toList 0 true) = .ok Niw)
+    (Eu Ev Ew : ℕ → ℕ → K)
+    (pju : Proj Niu (Obj.basisMat bu tol pu.toList 0 true) pu.size A pu.size Eu)
+    (pjv : Proj Niv (Obj.basisMat bv tol pv.toList 0 true) pv.size B pv.size Ev)
+    (pjw : Proj Niw (Obj.basisMat bw tol pw.toList 0 true) pw.size D pw.size Ew) :
+    ∃ T, o.reinterpolate tol [bu', bv', bw'] = .ok T ∧ T.shape = [pu.size, pv.size, pw.size, C] ∧
+      ∀ k0, k0 < pu.size → ∀ k1, k1 < pv.size → ∀ k2, k2 < pw.size → ∀ i, i < C →
+        T.entry4 pv.size pw.size C k0 k1 k2 i
+          = ∑ a0 ∈ range A, (∑ a1 ∈ range B, (∑ j ∈ range D, o.cps.entry4 B D C a0 a1 j i * Ew j k2) * Ev a1 k1)
+              * Eu a0 k0 := by
+  have hpd : o.pardim = 3 := by simp [Obj.pardim, hs]
+  obtain ⟨su, _⟩ := Mat.invChecked_spec _ Niu Hu
+  obtain ⟨sv, _⟩ := Mat.invChecked_spec _ Niv Hv
+  obtain ⟨sw, _⟩ := Mat.invChecked_spec _ Niw Hw
+  have r1 : (Obj.basisMat bu' tol pu.toList 0 true).nrows = pu.size := by simp [Mat.nrows, basisMat_size]
+  have r2 : (Obj.basisMat bv' tol pv.toList 0 true).nrows = pv.size := by simp [Mat.nrows, basisMat_size]
+  have r3 : (Obj.basisMat bw' tol pw.toList 0 true).nrows = pw.size := by simp [Mat.nrows, basisMat_size]
+  rw [r1] at su
+  rw [r2] at sv
+  rw [r3] at sw
+  set Nou := Obj.basisMat bu tol pu.toList 0 true with hNou
+  set Nov := Obj.basisMat bv tol pv.toList 0 true with hNov
+  set Now := Obj.basisMat bw tol pw.toList 0 true with hNow
+  have sou : Nou.size = pu.size := by simp [hNou, basisMat_size]
+  have sov : Nov.size = pv.size := by simp [hNov, basisMat_size]
+  have sow : Now.size = pw.size := by simp [hNow, basisMat_size]
+  have hr : o.reinterpolate tol [bu', bv', bw'] = .ok
+      (Tensor.tensordotFront Niu (Tensor.tensordotFront Niv (Tensor.tensordotFront Niw
+        (Tensor.tensordotFront Nou (Tensor.tensordotFront Nov (Tensor.tensordotFront Now o.cps 3) 3) 3) 3) 3) 3) := by
+    unfold Obj.reinterpolate
+    simp only [Obj.grevilles, hgu, hgv, hgw, hb, hpd]
+    simp only [List.zip_cons_cons, List.zip_nil_right, List.map_cons, List.map_nil, List.reverse_cons,
+      List.reverse_nil, List.nil_append, List.cons_append, List.foldl_cons, List.foldl_nil, Obj.solveChain]
+    rw [Hw]
+    simp only [Hv, Hu]
+    rfl
+  obtain ⟨c1, _, c3⟩ := chain3_proj o.cps hs Nou Nov Now Niu Niv Niw Eu Ev Ew
+    (by rw [sou, su]; exact pju) (by rw [sov, sv]; exact pjv) (by rw [sow, sw]; exact pjw)
+  rw [su, sv, sw] at c1 c3
+  exact ⟨_, hr, c1, c3⟩
+
 end Splipy
